@@ -67,8 +67,17 @@ def update_cases(rng, n):
                 k1 = k0 + 0.05 * k1; k1 /= np.linalg.norm(k1); kind = 'small-angle'
         if i == 5:
             k0 = np.array([1.0, 0.0, 0.0]); k1 = k0.copy(); kind = 'degenerate-x'
+        if i % 8 in (6, 7) or i in (9, 10, 11):
+            # directions that differ by rounding noise / by a deviation just below and above the 1e-8 threshold
+            d = unit3(rng); d -= d.dot(k0) * k0; d /= np.linalg.norm(d)
+            eps, kind = {6: (1.3e-16, 'near-parallel-noise'), 7: (3e-13, 'near-parallel-1e-13'), 1: (5e-9, 'just-below-tol'),
+                         2: (2e-8, 'just-above-tol'), 3: (-1.1e-16, 'near-antiparallel-noise')}[i % 8]
+            k1 = k0 + eps * d
+            k1 /= np.linalg.norm(k1)
+            if i % 8 == 3:
+                k1 = -k1
         k0s.append(k0); k1s.append(k1); kinds.append(kind)
-        Ps.append(np.eye(3, dtype=complex) if i % 5 == 0 else rand_cmat(rng))
+        Ps.append(np.eye(3, dtype=complex) if i % 2 == 0 else rand_cmat(rng))
     for mode in ('none', 'jones'):
         rays = make_rays(k0s, k1s)
         P = np.array(Ps)
@@ -80,8 +89,12 @@ def update_cases(rng, n):
             J = np.array([rand_cmat(rng) for _ in range(n)])
             rays.update(J)
         for i in range(n):
+            orth = None
+            if J is None and i % 2 == 0 and np.all(np.isfinite(rays.p[i])):
+                Q = np.real(rays.p[i])         # P = identity: the surface matrix itself; must be orthogonal and map k0 to k1
+                orth = float(max(np.max(np.abs(Q.T @ Q - np.eye(3))), np.max(np.abs(Q @ k0s[i] - k1s[i]))))
             out.append({'kind': kinds[i] + '/' + mode, 'k0': [float(x) for x in k0s[i]], 'k1': [float(x) for x in k1s[i]],
-                        'J': None if J is None else cflat(J[i]), 'P': cflat(P[i]), 'out': cflat(rays.p[i])})
+                        'J': None if J is None else cflat(J[i]), 'P': cflat(P[i]), 'out': cflat(rays.p[i]), 'orth_err': orth})
     return out
 
 
@@ -186,6 +199,15 @@ def traces(seed, n_lens):
             if tilt:
                 s = spec['surfaces'][rng.randrange(len(spec['surfaces']))]
                 s['rx'] = rng.uniform(-0.15, 0.15); s['ry'] = rng.uniform(-0.15, 0.15)
+            matched = False
+            if li % 4 == 0 and not any(x.get('material') == 'mirror' for x in spec['surfaces']):
+                # an index-matched (dummy) surface: same medium on both sides -> k1 = k0 up to rounding
+                pos = rng.randrange(len(spec['surfaces']))
+                before = spec['surfaces'][pos - 1]['material'] if pos > 0 else 'air'
+                dummy = {'type': 'standard', 'radius': rng.uniform(20, 150) * rng.choice([-1, 1]),
+                         'thickness': rng.uniform(0.5, 3.0), 'is_stop': False, 'material': before}
+                spec['surfaces'].insert(pos, dummy)
+                matched = True
             has_tilt = any(abs(s.get('rx', 0)) + abs(s.get('ry', 0)) > 0 for s in spec['surfaces'])
             try:
                 o = lensgen.build(spec)
@@ -197,7 +219,8 @@ def traces(seed, n_lens):
                 w = o.primary_wavelength
                 Hy = rng.choice([0.0, 1.0, rng.uniform(0, 1)])
                 del rec[:]
-                rays = o.trace(rng.uniform(-0.3, 0.3) if Hy else 0.0, Hy, w, num_rays=3, distribution=rng.choice(['line_y', 'line_x', 'hexapolar']))
+                dist = 'hexapolar' if matched else rng.choice(['line_y', 'line_x', 'hexapolar'])
+                rays = o.trace(rng.uniform(-0.3, 0.3) if Hy else 0.0, Hy, w, num_rays=3, distribution=dist)
             except Exception as e:       # lens not traceable (e.g. paraxial failure): skipped, counted
                 out.append({'lens': li, 'skipped': type(e).__name__ + ': ' + str(e)[:80]})
                 continue
@@ -216,16 +239,21 @@ def traces(seed, n_lens):
             s2 = PolarizationState(True, b, -a, g, g + d)
             rays.update_intensity(s1); ints['r1'] = rays.i.copy()
             rays.update_intensity(s2); ints['r2'] = rays.i.copy()
+            # a pair that differs only in the relative phase:  (1, e^{i d})/sqrt2  and  (1, -e^{i d})/sqrt2
+            s3 = PolarizationState(True, 1.0, 1.0, 0.0, d)
+            s4 = PolarizationState(True, 1.0, 1.0, 0.0, d + math.pi)
+            rays.update_intensity(s3); ints['c1'] = rays.i.copy()
+            rays.update_intensity(s4); ints['c2'] = rays.i.copy()
             rays.update_intensity(PolarizationState(False)); iun = rays.i.copy()
             E0 = rays._get_3d_electric_field(st)
             E1 = rays.get_output_field(E0)
             idx = list(range(n))
             rng.shuffle(idx)
-            for r in idx[:4]:
+            for r in idx[:(8 if matched else 4)]:
                 fin = bool(np.all(np.isfinite(kfin[r])) and np.all(np.isfinite(rays.p[r])))
                 surfs = [{'k0': [float(x) for x in k0[r]], 'k1': [float(x) for x in k1[r]],
                           'J': None if J is None else cflat(J[r])} for (k0, k1, J) in rec]
-                out.append({'lens': li, 'spec': spec, 'coated': coated, 'tilted': has_tilt, 'ray': int(r), 'finite': fin,
+                out.append({'lens': li, 'spec': spec, 'coated': coated, 'tilted': has_tilt, 'matched': matched, 'ray': int(r), 'finite': fin,
                             'raw': raw, 'state': [st.Ex, st.Ey, st.phase_x, st.phase_y],
                             'klaunch': [float(x) for x in klaunch[r]], 'kfinal': [float(x) for x in kfin[r]],
                             'surfs': surfs, 'P': cflat(rays.p[r]), 'ipol': float(ipol[r]), 'iunpol': float(iun[r]),
